@@ -47,6 +47,10 @@ type Interp struct {
 	// InitBind gives input memory its initial contents: unlike PathBind a cell
 	// the analysed code writes afterwards reads as what was written.
 	InitBind map[string]Val
+	// MapKeys declares the keys an input map holds (path of the map -> keys);
+	// the values are read like any other input cell (path["key"]). Lookups,
+	// len and, in path mode, range then follow the declaration.
+	MapKeys map[string][]Val
 	// final is the store at the exits of the last top-level activation; the
 	// rules read results from it (HeapAt, Elem, FinalHeap).
 	final Store
@@ -101,7 +105,7 @@ type Interp struct {
 }
 
 func NewInterp(p *Prog) *Interp {
-	return &Interp{Prog: p, PathBind: map[string]Val{}, InitBind: map[string]Val{}, maxSteps: 400000,
+	return &Interp{Prog: p, PathBind: map[string]Val{}, InitBind: map[string]Val{}, MapKeys: map[string][]Val{}, maxSteps: 400000,
 		Sizes: types.SizesFor("gc", "amd64"), ReachedAny: map[ssa.Instruction]bool{},
 		NoPath: os.Getenv("SC_NOPATH") != "", pathFail: map[*ssa.Function]int{}, pathOK: map[*ssa.Function]int{}}
 }
@@ -371,6 +375,7 @@ type frame struct {
 	prev      *ssa.BasicBlock
 	execCount map[ssa.Instruction]int
 	iterPos   map[*ssa.Range]int
+	iterKeys  map[*ssa.Range][]Val
 	// results
 	returns       map[*ssa.Return][]Val
 	retStores     map[*ssa.Return]Store
@@ -429,7 +434,7 @@ func (in *Interp) newFrame(fn *ssa.Function, args []Val, start *ssa.BasicBlock, 
 		blocks: map[*ssa.BasicBlock]bool{start: true}, edges: map[edge]bool{},
 		vals: map[ssa.Value]Val{}, memo: map[ssa.Value]Val{}, must: map[ssa.Instruction]bool{},
 		inS: map[*ssa.BasicBlock]Store{}, outS: map[*ssa.BasicBlock]Store{},
-		execCount: map[ssa.Instruction]int{}, iterPos: map[*ssa.Range]int{}, callMemo: map[*ssa.Call]*callRec{}, joinMemo: map[[2]*layer]*layer{}, accS: map[*ssa.BasicBlock]Store{},
+		execCount: map[ssa.Instruction]int{}, iterPos: map[*ssa.Range]int{}, iterKeys: map[*ssa.Range][]Val{}, callMemo: map[*ssa.Call]*callRec{}, joinMemo: map[[2]*layer]*layer{}, accS: map[*ssa.BasicBlock]Store{},
 		returns: map[*ssa.Return][]Val{}, retStores: map[*ssa.Return]Store{},
 		panics: map[ssa.Instruction]bool{}, mayPanicCalls: map[*ssa.Call]bool{},
 		reached: map[ssa.Instruction]bool{}}
@@ -740,11 +745,13 @@ func (fr *frame) step(instr ssa.Instruction) bool {
 		}
 	case *ssa.Range:
 		delete(fr.iterPos, i)
+		delete(fr.iterKeys, i)
 	case *ssa.Store:
 		fr.store(fr.eval(i.Addr), fr.eval(i.Val), i.Val.Type())
 	case *ssa.MapUpdate:
 		m, k := fr.eval(i.Map), fr.eval(i.Key)
-		if m.K == KPtr && strings.Contains(m.S, "#") {
+		_, declared := fr.in.MapKeys[m.S]
+		if m.K == KPtr && (strings.Contains(m.S, "#") || declared) {
 			if k.K == KStr || k.K == KInt {
 				fr.store(Val{K: KPtr, S: m.S + "[" + k.String() + "]"}, fr.eval(i.Value), nil)
 			} else if k.K != KBot {
@@ -1714,4 +1721,44 @@ func collectGarbage(exit, entry Store, roots []Val) Store {
 	}
 	out.size = entry.sz() + len(out.m)
 	return out
+}
+
+// mapHas reports what is known about a key of a declared input map: whether
+// the analysed code or the declaration puts it there.
+func (fr *frame) mapHas(m string, k Val) (present, known bool) {
+	keys, declared := fr.in.MapKeys[m]
+	if !declared || (k.K != KStr && k.K != KInt) {
+		return false, false
+	}
+	if c, ok := fr.cur.get(m + "[" + k.String() + "]"); ok {
+		return true, !c.Maybe
+	}
+	if _, wild := fr.cur.get(m + "[*]"); wild {
+		return false, false
+	}
+	for _, d := range keys {
+		if d.K == k.K && equalVal(d, k) {
+			return true, true
+		}
+	}
+	return false, true
+}
+
+// nextKey implements Next over a declared input map in path mode: the
+// declared keys in order (the order of a real map is arbitrary; the rules only
+// declare maps whose order does not matter).
+func (fr *frame) nextKey(x *ssa.Next, m string, elem types.Type) Val {
+	r, _ := x.Iter.(*ssa.Range)
+	keys, ok := fr.iterKeys[r]
+	if !ok {
+		keys = append([]Val{}, fr.in.MapKeys[m]...)
+		fr.iterKeys[r] = keys
+	}
+	pos := fr.iterPos[r]
+	if pos >= len(keys) {
+		return Val{K: KTuple, Elems: []Val{boolVal(false), top, top}}
+	}
+	fr.iterPos[r] = pos + 1
+	k := keys[pos]
+	return Val{K: KTuple, Elems: []Val{boolVal(true), k, fr.load(m+"["+k.String()+"]", elem)}}
 }
